@@ -115,7 +115,7 @@ package common
 //@   ensures size: result != nil && fresh(result) && 0 <= val(result) && val(result) < pow2(256 * ((bitlen + 255) / 256))
 //@   modifies nothing
 //@   loop 0 invariant k % 256 == 0 && k <= bitlen + 255 && res != nil && fresh(res) && 0 <= val(res) && val(res) < pow2(k) && fresh(tmp) && countIdx == len(tmp) - 1 && countIdx >= 1 && (forall j in 0..len(tmp) :: tmp[j] != nil) && fresh(tmp[countIdx]) && tmp[countIdx] != res
-//@   loop 0 modifies onlyfresh("BV")
+//@   loop 0 modifies funcfresh("BV")
 
 //@ func RandomBigInt
 //@   property C14 C16 C19
@@ -160,8 +160,8 @@ package common
 //@   loop 1 invariant n != tmp && m != tmp
 //@   loop 1 invariant val(n) > 0 && val(m) > 0
 //@   loop 1 invariant (j == 1 || j == 0 - 1)
-//@   loop 0 modifies onlyfresh("BV")
-//@   loop 1 modifies onlyfresh("BV")
+//@   loop 0 modifies funcfresh("BV")
+//@   loop 1 modifies funcfresh("BV")
 
 //@ func FastRandomBigInt
 //@   property C16
@@ -179,7 +179,7 @@ package common
 //@   requires n != nil && val(n) > 1
 //@   ensures qr: result != nil && fresh(result) && isqr(val(result), val(n)) && 0 <= val(result) && val(result) < val(n)
 //@   modifies nothing
-//@   loop 0 modifies onlyfresh("BV")
+//@   loop 0 modifies val(tmp), onlyfresh("BV")
 
 //@ # ---- reduction modulo p = 2^b - c (C19) ----
 //@ pred fmok(m) := m.enabled ==> val(m.p) > 0 && val(m.c) > 0 && val(m.c) <= val(m.p) && val(m.p) + val(m.c) == pow2(m.b) && val(m.mask) == pow2(m.b) - 1
@@ -206,7 +206,7 @@ package common
 //@   modifies val(ret)
 //@   loop 0 invariant (cur == x || cur == ret) && (retSet ==> cur == ret) && (!retSet ==> cur == x && val(x) == old(val(x)))
 //@   loop 0 invariant val(cur) >= 0 && (old(val(x)) - val(cur)) % val(m.p) == 0
-//@   loop 0 modifies val(ret), onlyfresh("BV")
+//@   loop 0 modifies val(ret), val(carry), val(tmp)
 //@   ghost at Int).Rsh c0: val($1)
 //@   assert at Int).And mask: val($2) + 1 == pow2(m.b) && val($1) == ghost(c0)
 //@   assert at Int).Mul low: val(ret) == ghost(c0) % pow2(m.b) && val(carry) == ghost(c0) / pow2(m.b)
@@ -225,7 +225,13 @@ package common
 //@   requires a != nil && pa != nil && val(pa) > 0
 //@   ensures zero: rem(val(a), val(pa)) == 0 ==> result1 && result0 != nil && val(result0) == 0
 //@   ensures none: !result1 ==> result0 == nil
-//@   loop 0 invariant true
-//@   loop 1 invariant true
-//@   loop 2 invariant true
-//@   loop 3 invariant true
+//@   ensures range: result1 ==> result0 != nil && 0 <= val(result0) && val(result0) < val(pa)
+//@   ensures euler: !result1 ==> pow(val(a), val(pa) / 2, val(pa)) != 1
+//@   loop 0 invariant z != nil && fresh(z) && val(pa) == old(val(pa)) && val(a) == old(val(a))
+//@   loop 1 invariant Q != nil && fresh(Q) && val(Q) >= 0 && z != nil && fresh(z) && z != Q && val(pa) == old(val(pa)) && val(a) == old(val(a))
+//@   loop 0 modifies funcfresh("BV")
+//@   loop 1 modifies funcfresh("BV")
+//@   loop 2 invariant R != nil && fresh(R) && 0 <= val(R) && val(R) < val(pa) && t != nil && fresh(t) && c != nil && fresh(c) && R != t && R != c && t != c && val(pa) == old(val(pa))
+//@   loop 3 invariant R != nil && fresh(R) && 0 <= val(R) && val(R) < val(pa) && t != nil && fresh(t) && c != nil && fresh(c) && tp != nil && fresh(tp) && R != t && R != c && t != c && tp != R && tp != t && tp != c && val(pa) == old(val(pa))
+//@   loop 2 modifies funcfresh("BV")
+//@   loop 3 modifies funcfresh("BV")
